@@ -315,7 +315,7 @@ def run_obligation1(u, ob, bdir, trace=False):
         cb += ['--trace']
     res['checker_cmd'] = ' '.join(inst[:1] + [x for x in inst[1:] if not x.endswith('.gb')]) + ' && ' + \
         ' '.join(x for x in cb if not x.endswith('.gb'))
-    rc, out, err, dt = run(cb, ob['timeout'], log, mem_kb=HEAVY_MEM_KB if ob.get('heavy') else None)
+    rc, out, err, dt = run(cb, ob['timeout'], log, mem_kb=HEAVY_MEM_KB if ob.get('heavy') else (ob.get('mem_gb') * 1024 * 1024 if ob.get('mem_gb') else None))
     res['solver_s'] = round(dt, 2)
     if err == 'TIMEOUT':
         res['status'] = 'timeout'
